@@ -77,6 +77,9 @@ inductive Form where
 /-- parameter names of the safe wrappers -/
 inductive Param where
   | a | b | result | value
+  /-- what the translator emits for an argument / assertion operand that is not one of the wrapper's parameters (`&a`, a
+  local variable, …): no specification accepts it -/
+  | other
   deriving DecidableEq, Repr, Inhabited
 
 /-- the two sides of the wrappers' `assert_eq!`s -/
